@@ -68,8 +68,8 @@ STYLES = {
 # W / H = fixed sizes wider / higher than both terminals: every size-validating draw() must refuse them
 # (InvalidSizeError) and leave nothing open; format / str / iteration do not validate and still render
 SIZES = {
-    "block": {"A": (4, 3), "B": (2, 1), "D": "FIT", "W": (14, 3), "H": (4, 9)},
-    "graphics": {"A": (2, 2), "B": (1, 1), "U": (4, 4), "D": "FIT", "W": (14, 2), "H": (2, 9)},
+    "block": {"A": (4, 3), "B": (2, 1), "D": "FIT", "F": "FIT_TO_WIDTH", "W": (14, 3), "H": (4, 9)},
+    "graphics": {"A": (2, 2), "B": (1, 1), "U": (4, 4), "D": "FIT", "F": "FIT_TO_WIDTH", "W": (14, 2), "H": (2, 9)},
 }
 OVERSIZE = ("W", "H")
 TERMS = {"L": (COLS, ROWS), "S": (9, 6)}      # terminal sizes of the "term" operation (a resize)
@@ -166,22 +166,22 @@ class State:
 
 def apply_size(L, image, style, sizeid):
     v = SIZES[STYLES[style][2]][sizeid]
-    if v == "FIT":
-        image.size = L.common.Size.FIT
+    if isinstance(v, str):      # a dynamic size: recomputed from the terminal at every render
+        image.size = getattr(L.common.Size, v)
     else:
         image.set_size(*v)
 
 
 def size_kwargs(L, style, sizeid):
     v = SIZES[STYLES[style][2]][sizeid]
-    if v == "FIT":
+    if isinstance(v, str):      # (Size.FIT is the constructor's default; other dynamic sizes are set afterwards)
         return {}
     return dict(width=v[0], height=v[1])
 
 
 def size_value(L, style, sizeid):
     v = SIZES[STYLES[style][2]][sizeid]
-    return L.common.Size.FIT if v == "FIT" else v
+    return getattr(L.common.Size, v) if isinstance(v, str) else v
 
 
 def draw_kwargs(style, spec):
@@ -375,8 +375,8 @@ def construct(S):
         img = S.cls.from_url(f"http://127.0.0.1:{_PORT}{ROUTES[S.key]}", **kw)
     else:
         img = S.cls(S.pil, **kw)
-    if cfg["size0"] == "D":
-        pass  # no width/height: Size.FIT is the constructor's default
+    if cfg["size0"] == "F":
+        apply_size(L, img, cfg["style"], "F")
     return img
 
 
@@ -1205,6 +1205,13 @@ def build_cfgs(tier):
             for rep, cached in ((1, False), (2, True), (2, False), (-1, True)):
                 add("file:gif", style, "A", rep, SPECS[style][0], cached, depth=9, faults=False,
                     alphabet=dict(sizes=("A", "B"), draw_anim=(), draw_bad=(), img_seek=(1,), only_iter=True))
+            # the same with a *dynamic* size and terminal resizes between and inside the passes: every frame of
+            # every pass (cached ones too) must be the frame-by-frame render at the terminal size of that moment
+            for src, size0, rep, cached in (("file:apng", "D", 2, True), ("file:gif", "D", -1, True),
+                                            ("file:apng", "F", -1, 2), ("pil:gif", "F", 2, 3)):
+                add(src, style, size0, rep, SPECS[style][0], cached, depth=7, faults=False,
+                    alphabet=dict(sizes=("A",), draw_anim=(), draw_bad=(), img_seek=(), only_iter=True,
+                                  seek=(K.N_FRAMES[src.split(":")[1]] - 1,), terms=("S", "L")))
             # sizes that do not fit the terminal: refused draws must leave nothing open, size and frame untouched
             for src, size0, sizes in (("file:gif", "W", ("A", "H")), ("url:gif", "H", ("A", "W")),
                                      ("file:png", "A", ("W", "H")), ("pil:gif", "W", ("H",))):
@@ -1248,6 +1255,14 @@ def build_cfgs(tier):
                     add(src, style, "A", rep, specs[0], cached, depth=14, faults=False,
                         alphabet=dict(sizes=("A", "B"), draw_anim=(), draw_bad=(), img_seek=(1,), only_iter=True,
                                       seek=(0, nf - 1, nf), terms=("S",) if cached is True and src == "file:gif" else ()))
+            # (T3b) the same with dynamic sizes and terminal resizes between and inside the passes
+            for rep, cached in ((2, True), (-1, True), (-1, 2), (2, False)):
+                for src in ("file:gif", "file:apng", "pil:gif"):
+                    nf = K.N_FRAMES[src.split(":")[1]]
+                    for size0 in ("D", "F"):
+                        add(src, style, size0, rep, specs[0], cached, depth=10, faults=False,
+                            alphabet=dict(sizes=("A", "D", "F"), draw_anim=(), draw_bad=(), img_seek=(), only_iter=True,
+                                          seek=(0, nf - 1), terms=("S", "L")))
             # (T4) two concurrent iterators on one image
             for src in ("file:gif", "pil:gif"):
                 add(src, style, "A", 2, specs[0], True, depth=6, maxit=2, faults=False,
